@@ -11,7 +11,7 @@ CLAUSE = (
     "shares_len and the reconstruction-side shares_needed_for_blob use the same capacity constants "
     "(FIRST_SPARSE_SHARE_CONTENT_SIZE = 478, CONTINUATION_SPARSE_SHARE_CONTENT_SIZE = 482); Blob::reconstruct rejects "
     "reserved namespaces, a first share without sequence start, namespace / share-version changes inside a blob and "
-    "an unexpected sequence start, and sizes its loop with shares_needed_for_blob(sequence length, signer presence)."
+    "an unexpected sequence start, and sizes its loop; Blob::reconstruct_all classifies the shares it skips with Namespace::is_reserved; reconstruct sizes its loop with shares_needed_for_blob(sequence length, signer presence)."
 )
 NOT_DECIDED = "The round-trip equalities themselves and the exact share count (value-level)."
 ENGINES = "D (must-depend), K (constants), G (reject guards)"
@@ -52,6 +52,19 @@ def run(ctx):
             ctx.check(has_leaf(ls, "const:" + G + "SIGNER_SIZE"), "C11.needed.every-exit-signer", n.path,
                       "the share count returned at %s is decided with the signer-adjusted first-share capacity" % x["loc"], site=x["loc"],
                       key="C11.needed.every-exit-signer|" + ("const" if not has_leaf(ctx.leaves(x["expr"]), "a1") else "computed"))
+    # reconstruct_all skips reserved-namespace shares: the classification applied to each share (in
+    # the function or one of its closures) is Namespace::is_reserved, whose definition C14.reserved
+    # decides - a re-derived range/ordering test is not accepted as the same classification
+    ra = [q for q in ctx.facts.paths("celestia_types") if q.startswith(T + "blob::Blob::reconstruct_all")]
+    ctx.check(bool(ra), "C11.reconstruct_all.exists", T + "blob", "Blob::reconstruct_all found", key="C11.reconstruct_all.exists")
+    if ra:
+        hit = False
+        for q in ra:
+            fb = ctx.anchor(q)
+            if fb and call_sites_with(ctx, fb, ["*Namespace::is_reserved"]):
+                hit = True
+        ctx.check(hit, "C11.reconstruct_all.reserved-filter", T + "blob::Blob::reconstruct_all",
+                  "shares interleaved with the blobs are skipped by Namespace::is_reserved (the classification C14.reserved decides)", key="C11.reconstruct_all.reserved-filter")
     r = ctx.anchor(T + "blob::Blob::reconstruct")
     if r:
         require_guard(ctx, r, Has("call:*Namespace::is_reserved", name="reserved namespace rejected"), "C11.reconstruct.reserved")
